@@ -124,7 +124,7 @@ func checkC06(c *Ctx) (int, error) {
 	}
 	// reader direction
 	for _, m := range [][2]string{{"GzipMech", "MC_GzipMech.cfg"}, {"ZlibReaderMech", "MC_ZlibReaderMech.cfg"}} {
-		if err := c.ModelCheck(m[0], m[1], 5*time.Minute); err != nil {
+		if err := c.ModelCheck(m[0], m[1], 15*time.Minute); err != nil {
 			return 0, err
 		}
 	}
@@ -208,10 +208,10 @@ func checkC07(c *Ctx) (int, error) {
 	c.ev.Level = "fault_enumeration"
 	c.ev.Assumptions = []string{"EVERY single bit flip and EVERY truncation point of each small container of the run is executed; double flips and byte substitutions are seeded samples; containers: gzip (with and without header fields, two members) and zlib (with and without dictionary) from several encoders",
 		"'matches the checksum': the harness's own container parser verifies CRC-32/ISIZE or Adler-32 of the reference inflater's output against the trailer bytes of the (corrupted) input"}
-	if err := c.ModelCheck("GzipMech", "MC_GzipMech.cfg", 5*time.Minute); err != nil {
+	if err := c.ModelCheck("GzipMech", "MC_GzipMech.cfg", 15*time.Minute); err != nil {
 		return 0, err
 	}
-	if err := c.ModelCheck("ZlibReaderMech", "MC_ZlibReaderMech.cfg", 5*time.Minute); err != nil {
+	if err := c.ModelCheck("ZlibReaderMech", "MC_ZlibReaderMech.cfg", 15*time.Minute); err != nil {
 		return 0, err
 	}
 	rng := rand.New(rand.NewSource(c.Seed))
@@ -324,10 +324,10 @@ type memberFile struct {
 func checkC08(c *Ctx) (int, error) {
 	c.ev.Level = "model_checking"
 	c.ev.Assumptions = []string{"member sequences are exhaustive within the bounds of MemberGen (TLC); payload bytes, header fields and Read/bufio sizes are seeded samples"}
-	if err := c.ModelCheck("GzipMech", "MC_GzipMech.cfg", 5*time.Minute); err != nil {
+	if err := c.ModelCheck("GzipMech", "MC_GzipMech.cfg", 15*time.Minute); err != nil {
 		return 0, err
 	}
-	if err := c.ModelCheck("ZlibReaderMech", "MC_ZlibReaderMech.cfg", 5*time.Minute); err != nil {
+	if err := c.ModelCheck("ZlibReaderMech", "MC_ZlibReaderMech.cfg", 15*time.Minute); err != nil {
 		return 0, err
 	}
 	maxM := 3
